@@ -18,7 +18,7 @@ from checks.common import Check, bound_vars, close, scenario, sopht_modules  # n
 
 # ------------------------------------------------------------------------------------- Brinkmann
 @scenario
-def brinkmann(ctx, variant, dim, field_type):
+def brinkmann(ctx, variant, dim, field_type, inplace="none"):
     _, spne, _, _ = sopht_modules()
     shape = (2,) * dim
     lam = ctx.scalar("penalty", nonneg=True, default=2.0)
@@ -30,9 +30,12 @@ def brinkmann(ctx, variant, dim, field_type):
         mod = sys.modules["sopht.numeric.immersed_boundary_ops.experimental.BrinkmannBoundaryForcing"]
         n = 3
         u, ub, out = ctx.array("u", (dim, n)), ctx.array("ub", (dim, n)), ctx.array("out0", (dim, n))
+        u_in, ub_in = u.copy(), ub.copy()
+        # in-place use: the output buffer is the flow-velocity buffer or the body-velocity buffer itself
+        out = u if inplace == "field" else ub if inplace == "target" else out
         dt = ctx.scalar("dt", nonneg=True, default=0.1)
         mod.BrinkmannBoundaryForcing.brinkmann_penalise_lag_grid_velocity_field(out, u, ub, lam, dt)
-        triples = [(out[c], u[c], ub[c], lam * dt) for c in np.ndindex(dim, n)]
+        triples = [(out[c], u_in[c], ub_in[c], lam * dt) for c in np.ndindex(dim, n)]
     else:
         chi = ctx.array("chi", shape, default=0.5)
         for c in cells:
@@ -44,10 +47,13 @@ def brinkmann(ctx, variant, dim, field_type):
             gen = spne.gen_brinkmann_penalise_pyst_kernel_2d if dim == 2 else spne.gen_brinkmann_penalise_pyst_kernel_3d
             k = gen(real_t=ctx.real_t, num_threads=False, field_type=field_type)
             ub = ctx.array("ub", fs)
+            u_in, ub_in = u.copy(), ub.copy()
+            out = u if inplace == "field" else ub if inplace == "target" else out
             if field_type == "scalar":
                 k(penalised_field=out, field=u, char_field=chi, penalty_field=ub, penalty_factor=ctx.cast(lam))
             else:
                 k(penalised_vector_field=out, penalty_factor=ctx.cast(lam), char_field=chi, penalty_vector_field=ub, vector_field=u)
+            u, ub = u_in, ub_in
             tgt = lambda c: ub[c]
         else:
             k = spne.gen_brinkmann_penalise_vs_fixed_val_pyst_kernel_2d(real_t=ctx.real_t, num_threads=False, field_type=field_type)
@@ -334,6 +340,9 @@ def main():
             for ft in ("scalar", "vector"):
                 chk.add(brinkmann, real_t=rt, variant="field", dim=dim, field_type=ft)
             chk.add(brinkmann, real_t=rt, variant="lagrangian", dim=dim, field_type="vector")
+            for ip in ("field", "target"):
+                chk.add(brinkmann, real_t=rt, variant="lagrangian", dim=dim, field_type="vector", inplace=ip)
+                chk.add(brinkmann, real_t=rt, variant="field", dim=dim, field_type="vector" if dim == 3 else "scalar", inplace=ip)
             chk.add(brinkmann_zero_indicator, real_t=rt, dim=dim)
             for blend in (0.1, 2 * (1.0 / 16)):
                 for case in ("below", "above", "at_edges", "range_and_symmetry", "monotone"):
@@ -363,7 +372,7 @@ def main():
         chk.add(brinkmann, real_t="float32", variant="field", dim=3, field_type="vector")
         chk.add(boundary_zone, real_t="float32", dim=3, width=2, shape=(5, 6, 7), field_type="vector")
         chk.add(filter_fourier_symbol, real_t="float32", order=1, ftype="convolution")
-    chk.bounds = ["boundary zone: closed form (edge value x quarter-sine ramp) on non-cubic grids down to n = 2*width; grids whose front and back zones overlap (n < 2*width) are outside the claim: the zone's inner edge is not defined there", "Brinkmann: per-cell claims on 2^d grids, penalty >= 0, indicator >= 0, all field/target values", "characteristic function: blend widths 0.1 and 2*dx(1/16); phi symbolic per case",
+    chk.bounds = ["boundary zone: closed form (edge value x quarter-sine ramp) on non-cubic grids down to n = 2*width; grids whose front and back zones overlap (n < 2*width) are outside the claim: the zone's inner edge is not defined there", "Brinkmann: out-of-place and in-place (output = field buffer / = target buffer) calls; per-cell claims on 2^d grids, penalty >= 0, indicator >= 0, all field/target values", "characteristic function: blend widths 0.1 and 2*dx(1/16); phi symbolic per case",
                   f"boundary zone: widths {list(widths)} on (2w+1)x(2w+2) (x..) grids, scalar and vector", f"filters: orders {list(orders)}, both types, scalar/vector; (2p+3)^3 grids; Fourier modes: cos(theta_a) in [-1,1] and 8 seeds symbolic"]
     chk.outside = ["rounding", "filter behaviour within p+1 cells of the boundary", "zone widths with overlapping zones (n < 2w)"]
     chk.assumptions = ["sin: one real variable per application with |sin|<=1, sin t<=t (t>=0), reflections about pi/2 via sin(pi-t)=sin t, sin(t+pi)=-sin t, sign on [0,pi], oddness and 1-Lipschitz instances for pairs of applications",
